@@ -43,6 +43,11 @@ chk('C19', 'exploration',
     'Round trip: every statement/declaration derivation within 2 (quick) / 3 (thorough) deviations, the literal table, strings of boundary lengths (0..70000) and a >64 KiB subroutine; each top-level statement, each body statement (Encode) and the whole file (Encodes) is encoded, decoded and compared field by field. Totality: for one small encoding per node kind every truncation, single-bit flip, boundary/frame-type byte substitution, one-byte deletion/insertion, pairwise splices and all byte strings up to length 3 over frame types are decoded under a fuel budget; the decoder must return statements or an error.',
     'Trusts: mc/gen tree dump; fuel instrumentation of ast/codec. Comments, positions and presentational flags are excepted as the property states. Known: 16-bit frame length (>=64 KiB strings), subroutine parameters not encoded.')
 
+chk('C09', 'exploration',
+    'bounded-exhaustive enumeration of decoration placements; differential oracle against the undecorated program on the real linter and simulator',
+    'For every statement/declaration derivation within 1 deviation (lint half) and 3 executable lifecycle programs run through ServeHTTP with a stub backend (simulator half, 3 requests incl. restart, error and a warm-cache hit), each of 6 decorations (/* c */, # c, // c, blank lines, tab+spaces, newline) is inserted into every gap between two consecutive tokens (thorough: all pairs of gaps within a statement). A variant at a documented comment placeholder must parse; elsewhere unparseable variants are skipped. Oracle: the multiset of (rule, severity, message) and the fatal error equal the base program\'s; flows, logs, restarts, response status/headers/body size are identical.',
+    'Trusts: mc/gen token/placeholder table; Date/Age/X-Timer headers and elapsed times are not compared.')
+
 NOT_YET = {i: 'check not built yet in this session (design in DESIGN.md §4); will be claimed once its command exists' for i in ids if i not in CHECKS}
 
 m = {
